@@ -83,6 +83,65 @@ Section EvalTree.
     end.
 End EvalTree.
 
+(* ------------------------------------------------------------------ what the script itself declares *)
+(* helpers implemented in ascii_pac_utils.js (the others are Go functions set on the global object) *)
+Definition is_js_helper (h : helper) : bool :=
+  match h with
+  | HdnsDomainIs | HdnsDomainLevels | HisPlainHostName | HlocalHostOrDomainIs | HshExpMatch | HisInNet | HisResolvable => true
+  | _ => false
+  end.
+Definition helper_code (h : helper) : N :=
+  match h with
+  | HdnsDomainIs => 0 | HdnsDomainLevels => 1 | HisPlainHostName => 2 | HlocalHostOrDomainIs => 3 | HshExpMatch => 4
+  | HisInNet => 5 | HisResolvable => 6 | HdnsResolve => 7 | HmyIpAddress => 8 | HisResolvableEx => 9 | HisInNetEx => 10
+  | HdnsResolveEx => 11 | HmyIpAddressEx => 12 | HsortIpAddressList => 13 | HgetClientVersion => 14
+  end.
+Definition helper_eqb (a c : helper) : bool := helper_code a =? helper_code c.
+
+Record scope := {
+  sc_shadow : list (helper * jsval);   (* function <helper>() { return <value>; } declared by the script *)
+  sc_lexical : option helper;          (* const <helper> = 1; at the top level of the script *)
+  sc_at_load : bool                    (* the body's helper call is made by a top-level statement (arguments are literals) *)
+}.
+Definition no_scope : scope := {| sc_shadow := []; sc_lexical := None; sc_at_load := false |}.
+
+Fixpoint lookup_helper (h : helper) (l : list (helper * jsval)) : option jsval :=
+  match l with
+  | [] => None
+  | (h', v) :: r => if helper_eqb h h' then Some v else lookup_helper h r
+  end.
+
+(* NewProxyResolver: Go helpers are set, then (Tables.library_before_script) the helper library is evaluated and then
+   the script, or the other way round.  Whatever is evaluated later replaces a function of the same name. *)
+Definition shadow_in_force (sc : scope) (h : helper) : option jsval :=
+  match lookup_helper h (sc_shadow sc) with
+  | Some v => if library_before_script || negb (is_js_helper h) then Some v else None
+  | None => None
+  end.
+Definition scoped_call (sc : scope) (call : helper -> list jsval -> outcome) (h : helper) (args : list jsval) : outcome :=
+  match shadow_in_force sc h with Some v => Val v | None => call h args end.
+
+Inductive creation := Created | CreationError | CreationPanic.
+Definition tree_helper (t : tree) : option helper :=
+  match t with Show h _ | Node h _ _ _ => Some h | Leaf _ => None end.
+Definition scope_creation (sc : scope) (t : tree) : creation :=
+  match sc_lexical sc with
+  | Some h =>
+      if is_js_helper h
+      then (if library_before_script then CreationError     (* the script redeclares a function of the library: its own error *)
+            else CreationPanic)                             (* the library fails on the script's binding: panic(err) *)
+      else Created
+  | None =>
+      if sc_at_load sc && negb library_before_script
+      then match tree_helper t with
+           | Some h => if is_js_helper h && negb (match lookup_helper h (sc_shadow sc) with Some _ => true | None => false end)
+                       then CreationError                   (* ReferenceError: the library is not there yet *)
+                       else Created
+           | None => Created
+           end
+      else Created
+  end.
+
 (* ------------------------------------------------------------------ pac.go *)
 Inductive fpresult := PacOk (s : str) | PacErr | PacOutside.
 
